@@ -43,8 +43,9 @@ PROPS["C12"] = dict(
 _CANON = ["ecdsa.util.sigencode_strings_canonize", "ecdsa.util.sigencode_string_canonize", "ecdsa.util.sigencode_der_canonize"]
 PROPS["C13"] = dict(
     level="proof",
-    functions=_CANON + ["ecdsa.util.sigencode_strings", "ecdsa.util.sigencode_string", "ecdsa.util.sigencode_der", "ecdsa.util.number_to_string", "ecdsa.util.orderlen"],
-    lemmas=[],
+    functions=_CANON + ["ecdsa.util.sigencode_strings", "ecdsa.util.sigencode_string", "ecdsa.util.sigencode_der", "ecdsa.util.number_to_string", "ecdsa.util.orderlen",
+                        "ecdsa.ecdsa.Public_key.verifies"],
+    lemmas=["C13.low_s_equivalent"],
     bounded=[dict(function=q, role="CPython cross-check of a proved contract", bound="17 curve orders x s in {n//2-1..n//2+2, 1, n-1,..}") for q in _CANON],
     min_obligations=8,
     trusted_base=["byte-string theory axioms", "float model: a/b is the correctly rounded double of the exact quotient (error <= 2^-53 relative)"],
@@ -67,4 +68,40 @@ PROPS["C06"] = dict(
     trusted_base=["field axioms of F_p for an odd prime p > 3 (no zero divisors, 2 and 3 are units)", "sympy cancel/factor as normal form of rational functions",
                   "the chord-and-tangent formulas of spec/ec.py and pyvc/field.py are the group law"],
     explanation="Jacobian formulas executed symbolically from the real AST; results compared with the textbook law as rational-function identities; integer guards compared with residue conditions by interval analysis",
+)
+
+
+_B = lambda q, bound: dict(function=q, role="CPython cross-check of a proved contract", bound=bound)
+PROPS["C02"] = dict(
+    level="proof",
+    functions=["ecdsa.ecdsa.Public_key.verifies", "ecdsa.keys.VerifyingKey.verify_digest", "ecdsa.keys._truncate_and_convert_digest",
+               "ecdsa.util.sigdecode_string", "ecdsa.util.sigdecode_strings", "ecdsa.util.sigdecode_der",
+               "ecdsa.der.remove_sequence", "ecdsa.der.remove_integer", "ecdsa.der.read_length"],
+    lemmas=["C13.low_s_equivalent"],
+    bounded=[_B("ecdsa.ecdsa.Public_key.verifies", "toy curves of prime order over F_p, p <= 13 (quick) / 23 (thorough): all r, s in [-1, n+2] x structured d, e")],
+    min_obligations=3,
+    trusted_base=["scalar mode: points of <G> are multiples of G, n prime, n*G = O; contracts of PointJacobi.mul_add / __mul__ / __add__ / x as stated in contracts/ellipticcurve.py",
+                  "field axioms of F_n, sympy normal forms"],
+    explanation="Public_key.verifies executed from the real AST in scalar mode; its result is compared on every path with the FIPS 186-4 predicate",
+)
+PROPS["C03"] = dict(
+    level="proof",
+    functions=["ecdsa.ecdsa.Private_key.sign", "ecdsa.keys._truncate_and_convert_digest", "ecdsa.keys.SigningKey.sign_number",
+               "ecdsa.keys.SigningKey.sign_digest"],
+    lemmas=[],
+    bounded=[_B("ecdsa.ecdsa.Private_key.sign", "toy curves of prime order, all d, k in [1, n-1] x structured e")],
+    min_obligations=5,
+    trusted_base=["scalar mode (see C02)", "field axioms of F_n, sympy normal forms"],
+    explanation="Private_key.sign executed from the real AST in scalar mode: r = x(kG) mod n, s = k^-1 (e + r d) mod n, RSZeroError iff r or s is 0",
+)
+
+PROPS["C01"] = dict(
+    level="proof",
+    functions=["ecdsa.ecdsa.Private_key.sign", "ecdsa.ecdsa.Public_key.verifies", "ecdsa.keys._truncate_and_convert_digest",
+               "ecdsa.keys.SigningKey.sign_number", "ecdsa.keys.SigningKey.sign_digest", "ecdsa.keys.VerifyingKey.verify_digest", "ecdsa.util.randrange"],
+    lemmas=["C01.sign_then_verify", "C13.low_s_equivalent"],
+    bounded=[],
+    min_obligations=10,
+    trusted_base=["scalar mode (see C02)", "the matching sigencode/sigdecode pair round-trips (C12, C13 contracts)", "the nonce sources return some k in [1, n-1] (C17 / C04 range contracts)"],
+    explanation="lemma over the contracts of signer, encoder/decoder and verifier: k^-1(e + r d) inverted gives back kG; quantified over all d, k in [1, n-1], all digests, both truncation settings, plain and low-S encoders",
 )
